@@ -50,6 +50,10 @@ CLAIMED = {
          'The real flightGroup.Do/DoEx/createCall/makeCall, lockedGroup.Do/makeCall and ResourceManager.GetResource executed under the engine scheduler for every interleaving (lock / WaitGroup granularity, sleep-set reduced) of 2 (quick) or 3 (thorough) goroutines with keys equal or different, fn returning a value, an error or panicking; logical-clock overlap oracle for shared results, per-key mutual exclusion asserted inside fn, exactly-once own execution for LockedCalls, independence of different keys with one execution blocked forever, create-at-most-once and same-instance for ResourceManager.',
          'go/ssa translation, gosym (schedules are decisions of the DFS; the data is concrete here, so this is in effect bounded systematic schedule exploration of the real code); sync.Mutex/RWMutex/WaitGroup modelled natively; sequentially consistent interleavings at synchronisation points; waiters of a panicked flight observe zero values (outside the statement).',
          'SSA interpretation under an exhaustive scheduler with sleep sets (bounded schedule exploration); solver only for data decisions'),
+ 'C02': ('DESIGN.md §4 C02',
+         'One step of the real adaptiveShedder.Allow / promise.Pass / promise.Fail from an arbitrary shedder state (rolling-window bucket contents, in-flight count and moving average, droppedRecently, overloadTime, CPU load, threshold and clock all symbolic; floats in the E2 real relaxation) against a capacity oracle recomputed by the harness: shed only if (cpu >= threshold or still hot) and in-flight > 10% of capacity; must shed when overloaded with in-flight and average above capacity; never shed with nothing in flight; exact in-flight, window and cool-off state transitions; Disable() yields a shedder that never sheds.',
+         'go/ssa translation, gosym, z3; E2 float encoding (over-approximation of IEEE-754 RNE with monotonicity/anchor axioms; Floor/Ceil/Round of integer/constant quotients computed exactly in integers); 1..2 buckets in quick (1..3 thorough), per-bucket pass count <= 2 (8), 0..1 (0..3) latency samples per bucket; stat.CpuUsage stubbed by a symbolic load; cpuThreshold in 1..999; which buckets a Reduce visits is C16\'s claim (recomputed in the oracle); SheddingHandler/interceptor wrappers are not covered.',
+         'SSA symbolic execution + SMT (z3), one-step check from an arbitrary state, E2 float relaxation'),
 }
 
 NA = {
